@@ -816,6 +816,8 @@ class RunCrateProvenanceManager(ProvenanceManager, ABC):
                 # Add CreateActions
                 create_actions = []
                 if step := workflow.steps.get(step_name):
+                    # The main entity of a bare tool run is registered as step `/` and is its own instrument
+                    work_example_id = jsonld_step.get("workExample", jsonld_step)["@id"]
                     for execution in await self.context.database.get_executions_by_step(
                         step.persistent_id
                     ):
@@ -828,7 +830,7 @@ class RunCrateProvenanceManager(ProvenanceManager, ABC):
                             "endTime": streamflow.core.utils.get_date_from_ns(
                                 execution["end_time"]
                             ),
-                            "instrument": {"@id": jsonld_step["workExample"]["@id"]},
+                            "instrument": {"@id": work_example_id},
                             "name": f"Run of workflow/{jsonld_step['@id']}",
                             "startTime": streamflow.core.utils.get_date_from_ns(
                                 execution["start_time"]
@@ -841,7 +843,7 @@ class RunCrateProvenanceManager(ProvenanceManager, ABC):
                             )
                         )["tag"]
                         self.create_action_map.setdefault(wf_id, {}).setdefault(
-                            jsonld_step["workExample"]["@id"], {}
+                            work_example_id, {}
                         ).setdefault(step_name, {}).setdefault(tag, []).append(
                             create_action
                         )
@@ -852,7 +854,7 @@ class RunCrateProvenanceManager(ProvenanceManager, ABC):
                         "@id": "#" + str(uuid.uuid4()),
                         "@type": "ControlAction",
                         "instrument": {"@id": jsonld_step["@id"]},
-                        "name": f"orchestrate {jsonld_step['workExample']['@id']}",
+                        "name": f"orchestrate {work_example_id}",
                         "object": [{"@id": ca["@id"]} for ca in create_actions],
                     }
                     organize_action.setdefault("object", []).append(
@@ -1056,7 +1058,7 @@ class CWLRunCrateProvenanceManager(RunCrateProvenanceManager):
         self, port_name: str, jsonld_port: MutableMapping[str, Any], step_name: str
     ) -> set[str]:
         global_name = posixpath.join(step_name, port_name)
-        if global_name not in self.scatter_map[step_name]:
+        if global_name not in self.scatter_map.get(step_name, []):
             return super()._get_additional_dependencies(
                 port_name, jsonld_port, step_name
             )
